@@ -148,6 +148,21 @@ def check_geometry(ctx, c):
     if g.size() != w * h * d:
         raise Violation("size() = %d" % g.size(), key="geometry:size")
     geometry_checks(g, c, True)
+    # the same object after its boundary conditions are changed through the public method (every answer above has
+    # been given once already): the relation must be the one of the new setting
+    for per2 in ([not p for p in per], [per[2], per[0], not per[1]]):
+        if per2 == per:
+            continue
+        sut_call("set_boundary_conditions", g.set_boundary_conditions, bc_dict(per2))
+        got_bc = sut_call("get_boundary_conditions", g.get_boundary_conditions)
+        want_bc = {a: ("periodical" if p else "reflecting") for a, p in zip("xyz", per2)}
+        if dict(got_bc) != want_bc:
+            raise Violation("get_boundary_conditions() = %s after set_boundary_conditions(%s)" % (dict(got_bc), bc_dict(per2)), key="geometry:bc-getter")
+        try:
+            geometry_checks(g, dict(c, per=per2), False)
+        except Violation as e:
+            raise Violation("after set_boundary_conditions(%s) on a grid created with %s: %s" % (bc_dict(per2), bc_dict(per), e), key=e.key + ":after-bc-change")
+    ctx.count("bc-changes", 2)
     ctx.count("cells", w * h * d)
     ctx.count("ordered_pairs", (w * h * d) * (w * h * d - 1))
 
@@ -194,6 +209,48 @@ def check_engine(ctx, c):
             if abs(x1[j] - want) > 1e-9 * 1024:
                 raise Violation("grid %dx%dx%d bc %s: one diffusion step from cell %d puts %r in cell %d, reference %r (multiplicity %d)" % (
                     w, h, d, per, i, x1[j], j, want, ref.get(j, 0)), key="engine:neighbours")
+        # the two stochastic algorithms walk the same table with code of their own
+        N = 6400.0
+        state = [0.0] * n
+        state[i] = N
+        system = S.RDSystem(net, g, state=state)
+        seed = 1 + i + 97 * (w + 5 * h + 25 * d) + 100003 * sum(b << k for k, b in enumerate(per))
+        traj = sut_call("simulate(tauleap)", S.simulate, system, [0], engine=sim.engine("tauleap"), sampling_policy="on_iteration",
+                        time_step=dt, t_max=dt / 2, rng_seed=seed, init_state_processing="none")
+        data = [float(v) for v in traj.data.value]
+        if len(data) < 2 * n:
+            raise Violation("tau-leap: expected 2 samples, got %d values" % len(data), key="engine:samples")
+        x1 = data[n:2 * n]
+        if sum(x1) != N:
+            raise Violation("grid %dx%dx%d bc %s: one tau-leap diffusion step from cell %d changes the total from %r to %r" % (w, h, d, per, i, N, sum(x1)),
+                            key="engine:tauleap-total")
+        for j in range(n):
+            if j == i:
+                continue
+            mean = N * dt * ref.get(j, 0)
+            if abs(x1[j] - mean) > 7 * math.sqrt(mean) + 1e-9:
+                raise Violation("grid %dx%dx%d bc %s: one tau-leap diffusion step from cell %d (%d molecules) puts %r molecules in cell %d, the "
+                                "neighbour relation gives Poisson(%r) (multiplicity %d)" % (w, h, d, per, i, N, x1[j], j, mean, ref.get(j, 0)),
+                                key="engine:tauleap-neighbours")
+        script = S.RDScript(system, [0], t_max=1e9, sampling_policy="on_iteration", rng_seed=seed, init_state_processing="none")
+        traj, _, _ = sut_call("gillespie run", sim.drive, script, "gillespie", 120)
+        data = [float(v) for v in traj.data.value]
+        for k in range(len(data) // n - 1):
+            a, b = data[k * n:(k + 1) * n], data[(k + 1) * n:(k + 2) * n]
+            diff = {j: b[j] - a[j] for j in range(n) if b[j] != a[j]}
+            if not diff:
+                # a molecule that hops onto its own cell (periodic axis of length 1)
+                if not any(j in ref_neighbours(w, h, d, per, j) for j in range(n) if a[j] > 0):
+                    raise Violation("grid %dx%dx%d bc %s: Gillespie event %d changes nothing although no occupied cell is its own neighbour" % (
+                        w, h, d, per, k), key="engine:gillespie-null")
+                continue
+            src_ = [j for j, v in diff.items() if v == -1]
+            dst_ = [j for j, v in diff.items() if v == 1]
+            if len(diff) != 2 or len(src_) != 1 or len(dst_) != 1:
+                raise Violation("grid %dx%dx%d bc %s: Gillespie event %d is not one molecule moving: %s" % (w, h, d, per, k, diff), key="engine:gillespie-step")
+            if dst_[0] not in ref_neighbours(w, h, d, per, src_[0]):
+                raise Violation("grid %dx%dx%d bc %s: Gillespie event %d moves a molecule from cell %d to cell %d, which is not one of its neighbours %s" % (
+                    w, h, d, per, k, src_[0], dst_[0], sorted(set(ref_neighbours(w, h, d, per, src_[0])))), key="engine:gillespie-neighbours")
     ctx.count("cells", n)
 
 
